@@ -35,7 +35,10 @@ Inductive base_msg :=
 | BSend (from to : bytes) (amt : coins)
 | BVest (from to : bytes) (amt : coins) (end_time : Z)          (* vesting MsgCreateVestingAccount, delayed *)
 | BGrant (granter grantee type_url : bytes) (expiration : option Z)
-| BRevoke (granter grantee type_url : bytes).
+| BRevoke (granter grantee type_url : bytes)
+| BMultiSend (from : bytes) (amt : coins) (outs : list (bytes * coins)).
+    (* bank MsgMultiSend: SDK 0.47 allows exactly one input; the message is that input (bech32 string, coins)
+       plus the outputs (bech32 string, coins) *)
 
 Inductive msg :=
 | MBase (m : base_msg)
@@ -77,6 +80,9 @@ Record env := {
   e_verify : bytes -> bytes -> bytes -> bool }.
 
 Definition cs_authz : bytes := b "authz".
+Definition cs_bank : bytes := b "bank".
+(** sdk.MsgTypeURL(&banktypes.MsgMultiSend{}) *)
+Definition url_bank_multi_send : bytes := b "/cosmos.bank.v1beta1.MsgMultiSend".
 
 Definition type_url (m : base_msg) : bytes :=
   match m with
@@ -98,6 +104,7 @@ Definition type_url (m : base_msg) : bytes :=
   | BVest _ _ _ _ => GenApp.url_vesting_create
   | BGrant _ _ _ _ => GenConst.url_authz_grant
   | BRevoke _ _ _ => GenConst.url_authz_revoke
+  | BMultiSend _ _ _ => url_bank_multi_send
   end.
 
 (** ** ValidateBasic *)
@@ -138,6 +145,15 @@ Section WithEnv.
     | PBurn denom_id id burner => vb_burn_pnft unbech denom_id id burner
     end.
 
+  (** Output.ValidateBasic for every output, in order: the address decodes, the coins are valid and positive *)
+  Fixpoint vb_outs (outs : list (bytes * coins)) : outcome unit :=
+    match outs with
+    | [] => Ok tt
+    | (a, cs) :: r =>
+        do _ <- validate_addr unbech a;
+        if coins_valid cs then vb_outs r else Err cs_sdk 10
+    end.
+
   Definition vb_base (m : base_msg) : outcome unit :=
     match m with
     | BAol a => vb_aol a
@@ -163,6 +179,18 @@ Section WithEnv.
             if bytes_eqb ga ra then Err cs_authz 7
             else match u with [] => Err cs_sdk 18 | _ => Ok tt end
         | _, _ => err_invalid_address
+        end
+    | BMultiSend f amt outs =>
+        (* MsgMultiSend.ValidateBasic with one input: ErrNoOutputs (bank, 3); Input.ValidateBasic;
+           Output.ValidateBasic for each output; ErrInputOutputMismatch (bank, 4) *)
+        match outs with
+        | [] => Err cs_bank 3
+        | _ =>
+            do _ <- validate_addr unbech f;
+            if negb (coins_valid amt) then Err cs_sdk 10
+            else
+              do _ <- vb_outs outs;
+              if coins_eqb amt (outs_coins outs) then Ok tt else Err cs_bank 4
         end
     end.
 
@@ -200,6 +228,7 @@ Section WithEnv.
         do a <- addr_or_panic s; Ok [a]
     | BSend f _ _ | BVest f _ _ _ => do a <- addr_or_panic f; Ok [a]
     | BGrant g _ _ _ | BRevoke g _ _ => do a <- addr_or_panic g; Ok [a]
+    | BMultiSend f _ _ => do a <- addr_or_panic f; Ok [a]
     end.
 
   Definition signers (m : msg) : outcome (list bytes) :=
@@ -277,6 +306,17 @@ Section WithEnv.
   Definition remove_grant (gs : list grant) (g r u : bytes) : list grant :=
     filter (fun x => negb (grant_matches g r u x)) gs.
 
+  (** the output addresses, decoded *)
+  Fixpoint unbech_outs (outs : list (bytes * coins)) : option (list (bytes * coins)) :=
+    match outs with
+    | [] => Some []
+    | (a, cs) :: r =>
+        match unbech a, unbech_outs r with
+        | Some a', Some r' => Some ((a', cs) :: r')
+        | _, _ => None
+        end
+    end.
+
   Definition exec_base (c : chain) (m : base_msg) : outcome (chain * list N) :=
     match m with
     | BAol a => exec_aol c a
@@ -326,6 +366,17 @@ Section WithEnv.
             | Some _ => Ok (with_grants c (remove_grant (c_grants c) ga ra u), [])
             | None => Err cs_authz 2
             end
+        | _, _ => err_invalid_address
+        end
+    | BMultiSend f amt outs =>
+        (* x/bank msgServer.MultiSend: no output may be a blocked address; then InputOutputCoins *)
+        match unbech f, unbech_outs outs with
+        | Some fa, Some outs' =>
+            if existsb (fun o => mem_bytes (fst o) (e_blocked e)) outs' then Err cs_sdk 4
+            else match multi_send (c_bank c) (e_now e) fa amt outs' with
+                 | Some bk => Ok (with_bank c bk, [])
+                 | None => Err cs_sdk 5
+                 end
         | _, _ => err_invalid_address
         end
     end.
